@@ -27,7 +27,8 @@ From Coq Require Import List Bool ZArith QArith.
 From Pandora Require Import Lib.Ext Model.Machine Spec.Language Model.Criteria Model.FlagSteps Model.FlagPipeline
   Model.Wta Spec.Validity Proofs.WtaP
   Model.MatchingCost Proofs.MatchingCostP
-  Proofs.FlagEnvP Proofs.CriteriaP Proofs.FlagStepsP Proofs.FlagPipelineP Proofs.FlagWtaP Proofs.FlagCostP Proofs.FlagCostCensusZnccP Gen.Flags.
+  Proofs.FlagEnvP Proofs.CriteriaP Proofs.FlagStepsP Proofs.FlagPipelineP Proofs.FlagWtaP Proofs.FlagCostP Proofs.FlagCostCensusZnccP Gen.Flags
+  Lib.NpCrit Gen.CriteriaFns Proofs.CriteriaGenP.
 Import ListNotations.
 Open Scope Z_scope.
 
@@ -368,6 +369,103 @@ Proof.
   intros m [<-|[<-|[<-|[<-|[]]]]]; vm_compute; split; reflexivity.
 Qed.
 
+
+(* ---- T-gen on the criteria FUNCTIONS.  Gen/CriteriaFns.v is regenerated at every run from pandora/criteria.py by
+   translator/gen_criteria_fns.py, statement by statement (each numpy / xarray / scipy construct becomes one combinator
+   of Lib/NpCrit.v, whose meaning is written there once; anything else is refused): g_validity_mask, g_allocate_left_mask,
+   g_allocate_right_mask (the `for dsp in range(d_min, d_max + 1)` loop over whole arrays, a fold_left), g_mask_invalid_
+   variable_disparity_range, g_mask_border, g_binary_dilation_msk.  The theorems below say that these GENERATED functions,
+   run on the datasets of ANY layout L -- [cv_of L r0 c0 Q]: a cost-volume dataset whose row / col coordinates start at
+   (r0, c0) (an ROI: the code compares col COORDINATES, col[0] + offset), disp from dmin to dmax, window 2*off+1, NaN
+   pattern Q; [imgl_of] / [imgr_of]: the two images with their masks and conventions, same coordinates -- never raise
+   ([okm]: err = false, shape of the image) and compute, element by element, what Model/Criteria.v computes with the
+   regenerated flag sites E0; so the theorems about the model above are theorems about the generated code.  They are
+   re-proved against the regenerated files at every run: a change of criteria.py that changes what a function computes
+   breaks them (or is refused by the translator) whatever the correspondence sample. *)
+Theorem C04_gen_binary_dilation_eq_model : forall L r0 c0 Q, 0 <= off L -> forall has f ndv vlv,
+  let D := g_binary_dilation_msk consts (img_of has (nr L) (nc L) r0 c0 f ndv vlv) (cv_window_size (cv_of L r0 c0 Q)) in
+  b_err D = false /\ b_nr D = nr L /\ b_nc D = nc L /\ forall r c, b_at D r c = dil L f ndv r c.
+Proof. exact gen_dilation. Qed.
+
+Theorem C04_gen_allocate_left_mask_eq_model : forall L r0 c0 Q, 0 <= off L -> forall X, okm L X ->
+  let Y := g_allocate_left_mask consts (cv_of L r0 c0 Q) X (imgl_of L r0 c0) in
+  okm L Y /\ forall r c, m_at Y r c = alloc_left E0 L (m_at X r c) r c.
+Proof. exact gen_left. Qed.
+
+(* the loop: [bit1] is any index array holding exactly the bit-1 columns *)
+Theorem C04_gen_allocate_right_mask_eq_model : forall L r0 c0 Q, 0 <= off L -> 0 <= nr L -> 0 < nc L -> dmin L <= dmax L ->
+  forall X bit1, okm L X -> idx_cols_bad (nc L) bit1 = false ->
+  (forall c, 0 <= c < nc L -> vmem c bit1 = bit1_col L c) ->
+  let Y := g_allocate_right_mask consts (cv_of L r0 c0 Q) X (imgr_of L r0 c0) bit1 in
+  okm L Y /\ forall r c, 0 <= r < nr L -> 0 <= c < nc L -> m_at Y r c = alloc_right E0 L (m_at X r c) r c.
+Proof. exact gen_right. Qed.
+
+Theorem C04_gen_validity_mask_eq_model : forall L r0 c0 Q, 0 <= off L -> 0 <= nr L -> 0 < nc L -> dmin L <= dmax L ->
+  let Y := g_validity_mask consts (imgl_of L r0 c0) (imgr_of L r0 c0) (cv_of L r0 c0 Q) in
+  okm L Y /\ forall r c, 0 <= r < nr L -> 0 <= c < nc L -> m_at Y r c = validity_mask_px E0 L r c.
+Proof. exact gen_validity_mask. Qed.
+
+(* [allnan_of Q r c] = every sample of pixel (r, c) is NaN in the pattern Q, as np.min(np.isnan(cv), axis=2) computes it *)
+Theorem C04_gen_mivdr_eq_model : forall L r0 c0 Q X, okm L X -> q_err Q = false -> q_nr Q = nr L -> q_nc Q = nc L -> 0 < q_nd Q ->
+  let Y := g_mask_invalid_variable_disparity_range consts (cv_of L r0 c0 Q) X in
+  okm L Y /\ forall r c, 0 <= r < nr L -> 0 <= c < nc L -> m_at Y r c = mivdr E0 (allnan_of Q r c) (m_at X r c).
+Proof. exact gen_mivdr. Qed.
+
+Theorem C04_gen_mask_border_eq_model : forall L r0 c0 Q, 0 <= off L -> forall X, okm L X ->
+  let Y := g_mask_border consts (cv_of L r0 c0 Q) X in
+  okm L Y /\ forall r c, 0 <= r < nr L -> 0 <= c < nc L -> m_at Y r c = mask_border_px E0 L r c (m_at X r c).
+Proof. exact gen_border. Qed.
+
+(* the three calls in the order the pipeline makes them ([gen_after_mc]: validity_mask, then
+   mask_invalid_variable_disparity_range, then mask_border if offset > 0) = [after_mc] *)
+Theorem C04_gen_criteria_eq_model : forall L r0 c0 Q, 0 <= off L -> 0 <= nr L -> 0 < nc L -> dmin L <= dmax L -> cube_ok L Q ->
+  let G := gen_after_mc consts (imgl_of L r0 c0) (imgr_of L r0 c0) (cv_of L r0 c0 Q) in
+  okm L G /\ forall r c, 0 <= r < nr L -> 0 <= c < nc L -> m_at G r c = after_mc E0 L (allnan_of Q) r c.
+Proof. exact gen_after_mc_eq. Qed.
+
+Section AfterMatchingCostGenerated.
+  Variables (L : layout) (r0 c0 : Z) (Q : cube) (gmin gmax : Z -> Z -> Z).
+  Hypothesis Hoff : 0 <= off L.
+  Hypothesis Hnc : 0 < nc L.
+  Hypothesis Hd : dmin L <= dmax L.
+  Hypothesis HQ : cube_ok L Q.
+  Let S := scene_of L gmin gmax.
+  Let flag := m_at (gen_after_mc consts (imgl_of L r0 c0) (imgr_of L r0 c0) (cv_of L r0 c0 Q)).
+  Let nan_ok := nan_pattern_ok L gmin gmax (allnan_of Q).
+
+  Theorem C04_gen_after_mc_expected : forall r c, in_img S r c -> nan_ok r c -> flag r c = expected_flag S r c.
+  Proof. exact (gen_flag_expected L r0 c0 Q gmin gmax C04_flags_wf Hoff Hnc Hd HQ). Qed.
+
+  Theorem C04_gen_border_bit0_only : forall r c, border S r c -> nan_ok r c -> flag r c = 1.
+  Proof. exact (gen_border_bit0_only L r0 c0 Q gmin gmax C04_flags_wf Hoff Hnc Hd HQ). Qed.
+
+  Theorem C04_gen_bit7_iff : forall r c, in_img S r c -> win_in S r c -> nan_ok r c ->
+    (Z.testbit (flag r c) 7 = true <-> cause7 S r c).
+  Proof. exact (gen_bit7_iff L r0 c0 Q gmin gmax C04_flags_wf Hoff Hnc Hd HQ). Qed.
+
+  Theorem C04_gen_invalid_iff_nocost : forall r c, in_img S r c -> nan_ok r c ->
+    (Z.land (flag r c) 195 <> 0 <-> no_cost S r c).
+  Proof. exact (gen_invalid_iff_nocost L r0 c0 Q gmin gmax C04_flags_wf Hoff Hnc Hd HQ). Qed.
+End AfterMatchingCostGenerated.
+
+(* Non-vacuity: the generated functions RUN.  The 3 x 7 pair of C04_example seen through an ROI whose coordinates start at
+   row 50, column 100, NaN pattern = the one C02 prescribes on 4 samples: no error, and the centre row reads 1 7 4 0 0 4 1. *)
+Definition ex_Q : cube := mkQ false 3 7 4 (fun r c _ => ex_allnan r c).
+Example C04_example_generated :
+  cube_ok ex_L ex_Q
+  /\ (forall r c, nan_pattern_ok ex_L (fun _ _ => -2) (fun _ _ => 1) (allnan_of ex_Q) r c)
+  /\ let G := gen_after_mc consts (imgl_of ex_L 50 100) (imgr_of ex_L 50 100) (cv_of ex_L 50 100 ex_Q) in
+     m_err G = false /\ map (m_at G 1) [0; 1; 2; 3; 4; 5; 6] = [1; 7; 4; 0; 0; 4; 1].
+Proof.
+  split; [repeat split|]. split.
+  - intros r c. unfold nan_pattern_ok.
+    replace (allnan_of ex_Q r c) with (ex_allnan r c)
+      by (unfold allnan_of, ex_Q; cbn [q_nan q_nd]; change (upto 4) with [0; 1; 2; 3]; cbn [forallb];
+          destruct (ex_allnan r c); reflexivity).
+    unfold ex_allnan. apply no_cost_b_iff.
+  - vm_compute. split; reflexivity.
+Qed.
+
 Print Assumptions C04_flags_wf.
 Print Assumptions C04_info_bits_idempotent.
 Print Assumptions C04_guard_holds_for_every_pipeline.
@@ -400,3 +498,14 @@ Print Assumptions C04_own_bits_values.
 Print Assumptions C04_pipeline_flags_documented.
 Print Assumptions C04_pipeline_flags_documented_gen.
 Print Assumptions C04_repeated_refinement_before_fix.
+Print Assumptions C04_gen_binary_dilation_eq_model.
+Print Assumptions C04_gen_allocate_left_mask_eq_model.
+Print Assumptions C04_gen_allocate_right_mask_eq_model.
+Print Assumptions C04_gen_validity_mask_eq_model.
+Print Assumptions C04_gen_mivdr_eq_model.
+Print Assumptions C04_gen_mask_border_eq_model.
+Print Assumptions C04_gen_criteria_eq_model.
+Print Assumptions C04_gen_after_mc_expected.
+Print Assumptions C04_gen_border_bit0_only.
+Print Assumptions C04_gen_bit7_iff.
+Print Assumptions C04_gen_invalid_iff_nocost.
